@@ -111,6 +111,7 @@ pub struct IndexRec {
     pub count: u32,
     pub offset: u32,
     pub key: u8,
+    pub free: [u8; 4],
 }
 
 #[derive(Clone, Debug)]
@@ -137,6 +138,8 @@ pub struct PackInfoRec {
     pub kind: u8,
     pub group: u8,
     pub free_data_id: u16,
+    /// the pack's free data recorded in the manifest's value store (None when the store is absent or undecodable)
+    pub free: Option<Vec<u8>>,
     pub location: String,
     /// absolute file offset of this 256-byte block
     pub at: u64,
@@ -157,6 +160,8 @@ pub struct PackView {
     pub origin: u64,
     pub body: PackBody,
     pub check_ok: Option<bool>,
+    /// the 24 free bytes of the kind-specific header (bytes 36..60 of the block at +64)
+    pub free: Vec<u8>,
 }
 
 #[derive(Clone, Debug, Default)]
@@ -440,7 +445,8 @@ fn decode_pack(buf: &[u8], origin: u64, fv: &mut FileView) {
             PackBody::Unknown
         }
     };
-    fv.packs.push(PackView { hdr, origin, body, check_ok });
+    let free = pbuf.get(64 + 36..64 + 60).map(|f| f.to_vec()).unwrap_or_default();
+    fv.packs.push(PackView { hdr, origin, body, check_ok, free });
 }
 
 fn table_u64(pbuf: &[u8], pos: u64, n: u64, what: &str, name: &str, fv: &mut FileView) -> Vec<u64> {
@@ -766,47 +772,7 @@ fn decode_directory(pbuf: &[u8], origin: u64, _hdr: &PackHdr, idx: usize, what: 
             }
         };
         fv.span(origin + off, origin + off + size as u64 + 4, idx, "value store tail", true, false);
-        let parsed = (|| -> Result<VStore, String> {
-            match *t.first().ok_or("empty tail")? {
-                0 => {
-                    if t.len() != 9 {
-                        return Err(format!("plain store tail length {} != 9", t.len()));
-                    }
-                    let dsize = le(t, 1, 8).unwrap();
-                    let dstart = off.checked_sub(dsize + 4).ok_or("data before pack start")?;
-                    let d = check_block(pbuf, dstart, dsize)?;
-                    fv.span(origin + dstart, origin + off, idx, "value store data", true, false);
-                    Ok(VStore::Plain(d.to_vec()))
-                }
-                1 => {
-                    let count = le(t, 1, 8).ok_or("short")?;
-                    let w = *t.get(9).ok_or("short")? as usize;
-                    if !(1..=8).contains(&w) {
-                        return Err(format!("offset size {w}"));
-                    }
-                    let need = 10 + w + w * (count as usize).saturating_sub(1);
-                    if t.len() != need {
-                        return Err(format!("indexed store tail length {} != {need}", t.len()));
-                    }
-                    let dsize = le(t, 10, w).unwrap();
-                    let mut offs = vec![0u64];
-                    for i in 0..(count as usize).saturating_sub(1) {
-                        offs.push(le(t, 10 + w + i * w, w).unwrap());
-                    }
-                    if count > 0 {
-                        offs.push(dsize);
-                    }
-                    if offs.windows(2).any(|p| p[0] > p[1]) {
-                        return Err("value offsets decrease".into());
-                    }
-                    let dstart = off.checked_sub(dsize + 4).ok_or("data before pack start")?;
-                    let d = check_block(pbuf, dstart, dsize)?;
-                    fv.span(origin + dstart, origin + off, idx, "value store data", true, false);
-                    Ok(VStore::Indexed(offs, d.to_vec()))
-                }
-                k => Err(format!("unknown value store kind {k}")),
-            }
-        })();
+        let parsed = parse_vstore(pbuf, origin, off, t, idx, fv);
         match parsed {
             Ok(v) => vstores.push(v),
             Err(e) => {
@@ -922,7 +888,7 @@ fn decode_directory(pbuf: &[u8], origin: u64, _hdr: &PackHdr, idx: usize, what: 
                 if at != t.len() {
                     fv.problem(format!("{what}: index {ii}: header length {} != 17 + pstring", t.len()));
                 }
-                let rec = IndexRec { store: le(t, 0, 4).unwrap() as u32, count: le(t, 4, 4).unwrap() as u32, offset: le(t, 8, 4).unwrap() as u32, key: t[16], name };
+                let rec = IndexRec { store: le(t, 0, 4).unwrap() as u32, count: le(t, 4, 4).unwrap() as u32, offset: le(t, 8, 4).unwrap() as u32, key: t[16], free: [t[12], t[13], t[14], t[15]], name };
                 if let Some(s) = stores.get(rec.store as usize) {
                     if (rec.offset as u64 + rec.count as u64) as usize > s.entries.len() && !s.entries.is_empty() {
                         fv.problem(format!("{what}: index {ii} window [{}, +{}) exceeds its store ({} entries)", rec.offset, rec.count, s.entries.len()));
@@ -935,6 +901,49 @@ fn decode_directory(pbuf: &[u8], origin: u64, _hdr: &PackHdr, idx: usize, what: 
         }
     }
     PackBody::Directory { indexes, stores }
+}
+
+/// Decode a value store (plain or indexed) from its tail `t` found at `off`; the data block lies right before the tail.
+fn parse_vstore(pbuf: &[u8], origin: u64, off: u64, t: &[u8], idx: usize, fv: &mut FileView) -> Result<VStore, String> {
+    match *t.first().ok_or("empty tail")? {
+        0 => {
+            if t.len() != 9 {
+                return Err(format!("plain store tail length {} != 9", t.len()));
+            }
+            let dsize = le(t, 1, 8).unwrap();
+            let dstart = off.checked_sub(dsize + 4).ok_or("data before pack start")?;
+            let d = check_block(pbuf, dstart, dsize)?;
+            fv.span(origin + dstart, origin + off, idx, "value store data", true, false);
+            Ok(VStore::Plain(d.to_vec()))
+        }
+        1 => {
+            let count = le(t, 1, 8).ok_or("short")?;
+            let w = *t.get(9).ok_or("short")? as usize;
+            if !(1..=8).contains(&w) {
+                return Err(format!("offset size {w}"));
+            }
+            let need = 10 + w + w * (count as usize).saturating_sub(1);
+            if t.len() != need {
+                return Err(format!("indexed store tail length {} != {need}", t.len()));
+            }
+            let dsize = le(t, 10, w).unwrap();
+            let mut offs = vec![0u64];
+            for i in 0..(count as usize).saturating_sub(1) {
+                offs.push(le(t, 10 + w + i * w, w).unwrap());
+            }
+            if count > 0 {
+                offs.push(dsize);
+            }
+            if offs.windows(2).any(|p| p[0] > p[1]) {
+                return Err("value offsets decrease".into());
+            }
+            let dstart = off.checked_sub(dsize + 4).ok_or("data before pack start")?;
+            let d = check_block(pbuf, dstart, dsize)?;
+            fv.span(origin + dstart, origin + off, idx, "value store data", true, false);
+            Ok(VStore::Indexed(offs, d.to_vec()))
+        }
+        k => Err(format!("unknown value store kind {k}")),
+    }
 }
 
 fn store_bytes(vs: &VStore, key: u64, size: Option<u64>) -> Result<Vec<u8>, String> {
@@ -1061,9 +1070,17 @@ fn decode_manifest(pbuf: &[u8], origin: u64, hdr: &PackHdr, idx: usize, what: &s
     if h[10..36].iter().any(|b| *b != 0) {
         fv.problem(format!("{what}: manifest header reserved bytes not zero"));
     }
+    let mut mvs = VStore::Bad;
     if vs_off != 0 || vs_size != 0 {
         match check_block(pbuf, vs_off, vs_size as u64) {
-            Ok(_) => fv.span(origin + vs_off, origin + vs_off + vs_size as u64 + 4, idx, "manifest value store tail", true, false),
+            Ok(t) => {
+                fv.span(origin + vs_off, origin + vs_off + vs_size as u64 + 4, idx, "manifest value store tail", true, false);
+                let t = t.to_vec();
+                match parse_vstore(pbuf, origin, vs_off, &t, idx, fv) {
+                    Ok(v) => mvs = v,
+                    Err(e) => fv.problem(format!("{what}: manifest value store: {e}")),
+                }
+            }
             Err(e) => fv.problem(format!("{what}: manifest value store tail: {e}")),
         }
     }
@@ -1104,6 +1121,7 @@ fn decode_manifest(pbuf: &[u8], origin: u64, hdr: &PackHdr, idx: usize, what: &s
                     kind: d[34],
                     group: d[35],
                     free_data_id: le(d, 36, 2).unwrap() as u16,
+                    free: store_bytes(&mvs, le(d, 36, 2).unwrap(), None).ok(),
                     location,
                     at: origin + at,
                 });
